@@ -969,7 +969,7 @@ fn gen_hostile_status(r: &mut Rng) -> (Vec<u8>, &'static str) {
             4 => b"\xff\xfe".to_vec(),
             _ => URLS[k].as_bytes().to_vec(),
         };
-        let value: Vec<u8> = match r.below(10) {
+        let value: Vec<u8> = match if k == 0 && r.chance(1, 3) { 7 } else { r.below(10) } {
             0..=2 => valid_payload(&gen_det(r, k, false)),
             3 => { let k2 = r.below(10) as usize; valid_payload(&gen_det(r, k2, false)) },
             4 | 5 => {
